@@ -59,8 +59,13 @@ def main():
         if st != "ok":
             ctx.brk("translator:" + g, st)
 
+    def lap(what):
+        if os.environ.get("VERIF_PROFILE"):
+            vlib.log("PROFILE %-12s %.1fs" % (what, time.time() - ctx.t0))
+    lap("tables")
     # 2. proof obligations
     props = vlib.coq_props(pid)
+    lap("props")
     n_obl = len(props["theorems"])
     n_dis = n_obl if props["ok"] else 0
     if not props["ok"]:
@@ -92,6 +97,7 @@ def main():
 
     # 3. builds against the current working tree
     ok, out = vlib.build_harness()
+    lap("harness")
     if not ok:
         ctx.brk("build:harness", out)
     tie = {"ok": False, "evaluations": 0, "distinct_nontrivial": 0, "samples": [], "rule": "", "distribution": {}}
@@ -99,6 +105,7 @@ def main():
     try:
         if ok:
             bok, bout = mod.build(ctx)
+            lap("build")
             if not bok:
                 ctx.brk("build:model", bout)
             # 4. correspondence
@@ -107,8 +114,10 @@ def main():
                 if not tie["ok"]:
                     for mm in tie.get("mismatches", [])[:3]:
                         ctx.brk("tie:" + tie.get("name", "tie"), json.dumps(mm, ensure_ascii=False))
+            lap("tie")
             if hasattr(mod, "always"):
                 extra = mod.always(ctx) or {}
+            lap("always")
     except Exception:
         ctx.brk("check-crashed", traceback.format_exc())
 
